@@ -5,6 +5,12 @@ pub mod c02;
 pub mod c03;
 pub mod c04;
 pub mod c05;
+pub mod relcommon;
+pub mod c06;
+pub mod c07;
+pub mod c08;
+pub mod c11;
+pub mod c15;
 pub mod c10;
 pub mod c12;
 pub mod c13;
@@ -22,6 +28,11 @@ pub fn by_id(id: &str) -> Option<Box<dyn Monitor>> {
         "C03" => Box::new(c03::C03),
         "C04" => Box::new(c04::C04),
         "C05" => Box::new(c05::C05),
+        "C06" => Box::new(c06::C06),
+        "C08" => Box::new(c08::C08),
+        "C11" => Box::new(c11::C11),
+        "C15" => Box::new(c15::C15),
+        "C07" => Box::new(c07::C07),
         "C10" => Box::new(c10::C10::new()),
         "C12" => Box::new(c12::C12),
         "C13" => Box::new(c13::C13),
